@@ -195,6 +195,40 @@ def generate(repo, emit, src, func_body):
     # ---------------------------------------------------------------- String / Tuple buffer guards
     guards = []
     okg = True
+    tuple_assign_iter = None
+
+    def match_brace(text, i):
+        depth = 0
+        for j in range(i, len(text)):
+            if text[j] == '{':
+                depth += 1
+            elif text[j] == '}':
+                depth -= 1
+                if depth == 0:
+                    return j
+        return None
+
+    def block_path(text, pos):
+        st = []
+        for j in range(pos):
+            if text[j] == '{':
+                st.append(j)
+            elif text[j] == '}' and st:
+                st.pop()
+        return st
+
+    def guard_classes(body, sites):
+        """classes refused with ValueError on EVERY path to every site: a guard counts for a site only if it
+        stands before it in a block that encloses the site (a guard inside one branch does not protect another)"""
+        gs = [(g.start(), block_path(body, g.start()), sorted(c for c in (code(g.group(1)), code(g.group(2))) if c is not None))
+              for g in re.finditer(guard_re, body) if g.group(3) == 'ValueError']
+        result = None
+        for site in sites:
+            ps = block_path(body, site)
+            dom = [cl for (pos, pg, cl) in gs if pos < site and pg == ps[:len(pg)]]
+            cl = set(dom[-1]) if dom else set()
+            result = cl if result is None else (result & cl)
+        return sorted(result or [])
     guard_re = (r'if\s*\(\s*header\(self\)->alloc\s+is\s+\(var\)(Alloc\w+)\s+or\s+header\(self\)->alloc\s+is\s+\(var\)(Alloc\w+)\s*\)\s*\{\s*'
                 r'throw\(\s*(\w+)')
     for fname, field in (('src/String.c', r's->val'), ('src/Tuple.c', r't->items')):
@@ -207,11 +241,27 @@ def generate(repo, emit, src, func_body):
             touch = [x.start() for x in re.finditer(r'(?:free|realloc)\s*\(\s*%s\b' % field, body)]
             if not touch:
                 continue
-            first_mut = min(touch + [x.start() for x in re.finditer(r'\bmemmove\s*\(', body)])
-            g = re.search(guard_re, body)
-            classes = []
-            if g and g.start() < first_mut and g.group(3) == 'ValueError':
-                classes = sorted(c for c in (code(g.group(1)), code(g.group(2))) if c is not None)
+            sites = touch + [x.start() for x in re.finditer(r'\bmemmove\s*\(', body)]
+            classes = guard_classes(body, sites)
+            if name == 'Tuple_Assign':
+                # two branches: sources with Len+Get are copied by index, any other iterable is pushed item by item
+                br = re.search(r'if\s*\(\s*implements_method\(obj,\s*Len,\s*len\)\s*and\s*implements_method\(obj,\s*Get,\s*get\)\s*\)\s*\{', body)
+                iter_classes = None
+                if br:
+                    t0 = br.end() - 1
+                    t1 = match_brace(body, t0)
+                    el = re.match(r'\s*else\s*\{', body[t1 + 1:]) if t1 else None
+                    if el:
+                        e0 = t1 + 1 + el.end() - 1
+                        e1 = match_brace(body, e0)
+                        then_sites = [x for x in sites if t0 < x < t1]
+                        else_sites = [x for x in sites if e0 < x < e1]
+                        classes = guard_classes(body, then_sites) if then_sites else []
+                        if else_sites:
+                            iter_classes = guard_classes(body, else_sites)
+                        elif re.search(r'Tuple_Push\(self,', body[e0:e1]):
+                            iter_classes = 'via Tuple_Push'
+                tuple_assign_iter = iter_classes
             guards.append((name, classes))
     if len(guards) < 10:
         okg = False
@@ -223,6 +273,10 @@ def generate(repo, emit, src, func_body):
               'Tuple_Concat', 'Tuple_Resize'):
         emit('hdr_guard_' + n.lower(), ('Definition hdr_guard_%s : list nat := [%s].' % (n.lower(), '; '.join(map(str, gd[n]))))
              if n in gd else None)
+    if tuple_assign_iter == 'via Tuple_Push':
+        tuple_assign_iter = gd.get('Tuple_Push')
+    emit('hdr_guard_tuple_assign_iter', ('Definition hdr_guard_tuple_assign_iter : list nat := [%s].   (* Tuple_Assign, sources without Len+Get *)'
+                                         % '; '.join(map(str, tuple_assign_iter))) if tuple_assign_iter is not None else None)
     # every function that frees/reallocates the buffer is one the model knows
     emit('hdr_guards_count', 'Definition hdr_guards_count : nat := %d.' % len(guards))
     # Tuple_Rem reaches the buffer only through Tuple_Pop_At
